@@ -375,11 +375,70 @@ def run(prog):
             res = analyse(prog, fn, ev, bname or show(base))
             n_sinks += len(res)
             out += res
+            out += closure_elements(prog, fn, ev, bname or show(base))
     if n_sinks < 40:
         raise CheckerError("CP: only %d sink instances recognised (expected >= 40)" % n_sinks)
     out += ite_adapters(prog)
     out += hash_sign(prog)
     out += serializer_flags(prog)
+    return out
+
+
+ITER_ADAPTORS = ("map", "for_each", "filter_map", "flat_map", "fold", "any", "all", "filter", "find", "position")
+
+
+def closure_elements(prog, fn, ev, bname):
+    """CP-closure: the elements of a decision node reached from a possibly complemented pointer carry *stored* subs; the
+    sub the pointer denotes is the stored one negated when the pointer is complemented.  A closure that is mapped over
+    those elements (`or.iter().map(|a| ..)`, `f.node_iter().map(..)`) and feeds `a.sub()` as it is to a semantic
+    operation (and/or/ite/exists/...) treats a complemented pointer like a regular one — negating the combined result
+    afterwards does not repair that for operations that do not commute with negation."""
+    out = []
+    te = fn.terms
+    k = 0
+    for cs in te.calls:
+        if cs.callee.name not in ITER_ADAPTORS or len(cs.args) < 2:
+            continue
+        src = strip(cs.args[0])
+        while isinstance(src, tuple) and src and src[0] == "call" and src[1].name in ("iter", "into_iter", "deref", "enumerate", "rev", "skip", "cloned", "copied") and src[2]:
+            src = strip(src[2][0])
+        from_base = ev.is_node_of_base(src) or (mir.is_call(src, "node_iter") and strip(src[2][0]) == ev.base) or \
+            (src[0] == "field" and src[2] == "nodes" and ev.is_node_of_base(src[1]))
+        if not from_base:
+            continue
+        clo = [a for a in cs.args[1:] if isinstance(a, tuple) and a[0] == "agg" and a[1] == "closure"]
+        if not clo:
+            continue
+        kids = [g for g in prog.lib_fns if g.npath == clo[0][2]]
+        if not kids:
+            continue
+        nu = ev.nu_known(cs.bb)
+        if nu is False:
+            continue    # the pointer is known to be regular here: stored subs are the denoted ones
+        kf = kids[0]
+        for c2 in kf.terms.calls:
+            nm = c2.callee.name
+            if nm not in SINKS:
+                continue
+            if not (c2.callee.local or c2.callee.res_local or (c2.callee.trait or "").startswith(("builder::", "repr::"))):
+                continue
+            for i in SINKS[nm]:
+                try:
+                    a = strip(c2.args[i])
+                except IndexError:
+                    continue
+                raw = [x for x in mir.subterms(a) if mir.is_call(x, "sub") and strip(x[2][0])[0] == "param"]
+                if not raw:
+                    continue
+                # compensated inside the closure by the captured pointer's sign?
+                comp = any(x[0] == "gamma" and mir.is_call(strip(x[1]), "is_neg") for x in mir.subterms(a))
+                k += 1
+                out.append(inst("CP", "%s:%s:closure-elem#%d" % (fn.npath, bname, k), OK if comp else VIOLATION, fn, c2.line,
+                                "element subs are sign-adjusted before use" if comp else
+                                "the closure mapped over the elements of `%s` passes the stored sub %s to `%s`: when `%s` is "
+                                "complemented the denoted sub is its negation, so the element-wise result is computed for the wrong "
+                                "function (a final negation repairs this only for operations that commute with negation)"
+                                % (bname, show(raw[0])[:30], nm, bname)))
     return out
 
 
